@@ -332,9 +332,18 @@ class Gadget:
                     seq = A.unparse(cj.comparators[0])
                     if seq in self.exit_seq():
                         return "exit"
-                    if "header" in seq:
+                    if seq in self.header_seq():
                         return "header"
         return None
+
+    def header_seq(self) -> Set[str]:
+        """names bound to the headers of the loop (first result of find_headers_and_entries)"""
+        out = set()
+        for s_ in A.walk_no_nested(self.fn.node):
+            ap = _assign_parts(s_) if isinstance(s_, (ast.Assign, ast.AnnAssign)) else None
+            if ap and isinstance(ap[0][0], ast.Tuple) and isinstance(ap[1], ast.Call) and isinstance(ap[1].func, ast.Attribute) and ap[1].func.attr == "find_headers_and_entries":
+                out.add(A.unparse(ap[0][0].elts[0]))
+        return out or {"headers"}
 
     def exit_seq(self) -> Set[str]:
         """names of the sequence the exit table enumerates"""
@@ -598,6 +607,30 @@ def ctrl5(ctx) -> List[Ob]:
         out.append(bad("CTRL-5", h.qualname, key, where, "there is a path through loop restructuring that neither declares the back edge on the single latch nor adds an exiting latch: the loop region keeps an undeclared cycle"))
     else:
         out.append(ok("CTRL-5", h.qualname, key, where, "every path to the exit stores a block with the declared back edge (early exit: declare_backedge; otherwise the synthetic exiting latch)"))
+    # the early exit is taken only for a single latch that is the single exiting block
+    key = "early exit: single latch is the single exiting block"
+    early_ret = None
+    for z in hcfg.nodes:
+        if z.stmt is not None and isinstance(z.stmt, ast.Return) and any(isinstance(a, ast.If) for a in A.ancestors(z.stmt)):
+            early_ret = z
+            break
+    if early_ret is not None:
+        guard = next(a for a in A.ancestors(early_ret.stmt) if isinstance(a, ast.If))
+        conj = guard.test.values if isinstance(guard.test, ast.BoolOp) and isinstance(guard.test.op, ast.And) else [guard.test]
+        # names of the exiting-blocks list (first result of find_exiting_and_exits)
+        exiting_names = set()
+        for s_ in A.walk_no_nested(h.node):
+            ap = _assign_parts(s_) if isinstance(s_, (ast.Assign, ast.AnnAssign)) else None
+            if ap and isinstance(ap[0][0], ast.Tuple) and isinstance(ap[1], ast.Call) and isinstance(ap[1].func, ast.Attribute) and ap[1].func.attr == "find_exiting_and_exits":
+                exiting_names.add(A.unparse(ap[0][0].elts[0]))
+        single = set()
+        for cj in conj:
+            if isinstance(cj, ast.Compare) and len(cj.ops) == 1 and isinstance(cj.ops[0], ast.Eq) and isinstance(cj.left, ast.Call) and isinstance(cj.left.func, ast.Name) and cj.left.func.id == "len" and isinstance(cj.comparators[0], ast.Constant) and cj.comparators[0].value == 1:
+                single.add(A.unparse(cj.left.args[0]))
+        if exiting_names and not (exiting_names & single):
+            out.append(bad("CTRL-5", h.qualname, key, ctx.where(h, guard), f"the early exit does not require len({sorted(exiting_names)[0]}) == 1 (it tests {sorted(single)}): a loop with several exiting blocks is declared finished and keeps several exits"))
+        elif exiting_names:
+            out.append(ok("CTRL-5", h.qualname, key, ctx.where(h, guard), f"requires exactly one exiting block and one back-edge block ({sorted(single)})"))
     # the latch itself
     key = "exiting latch: back edge to the loop head"
     where = ctx.where(h, g.latch)
@@ -1037,7 +1070,7 @@ def ctrl11(ctx) -> List[Ob]:
             out.append(unresolved("CTRL-11", fn.qualname, key, where, "no second-level lookup found"))
             continue
         arc = second[1]
-        seqs = g.exit_seq() if kind == "exit" else {"headers"}
+        seqs = g.exit_seq() if kind == "exit" else g.header_seq()
         guard = _full_guard(ctx, fn, actor)
         if guard is None:
             out.append(unresolved("CTRL-11", fn.qualname, key, where, "cannot read the guard of the arc"))
